@@ -115,7 +115,7 @@ Qed.
 
 Theorem conf_step_wf : forall c op c', wfc c -> apply_cc c op = Some c' -> wfc c'.
 Proof.
-  intros c op c' [Hs Hne Ho] H. destruct op as [x|x|a b|]; cbn [apply_cc] in H; destruct (joint c) eqn:Ej; try discriminate.
+  intros c op c' [Hs Hne Ho] H. destruct op as [x|x|a b| |x]; cbn [apply_cc] in H; destruct (joint c) eqn:Ej; try discriminate.
   - injection H as <-. constructor; cbn [c_in c_out joint]; [apply ins_sorted; exact Hs| |intros H0; discriminate H0].
     intros E. assert (Hin : In x (ins x (c_in c))) by (apply ins_in; left; reflexivity). rewrite E in Hin. destruct Hin.
   - destruct (del x (c_in c)) as [|z t] eqn:Ed; [discriminate|]. injection H as <-.
@@ -124,6 +124,8 @@ Proof.
     destruct (del b (ins a (y :: l))) as [|z t] eqn:Ed; [discriminate|]. injection H as <-.
     constructor; cbn [c_in c_out joint]; [rewrite <- Ed; apply del_sorted; apply ins_sorted; exact Hs|discriminate|intros _; discriminate].
   - injection H as <-. constructor; cbn [c_in c_out joint]; [exact Hs|exact Hne|intros H0; discriminate H0].
+  - destruct (del x (c_in c)) as [|z t] eqn:Ed; [discriminate|]. injection H as <-.
+    constructor; cbn [c_in c_out joint]; [rewrite <- Ed; apply del_sorted; exact Hs|discriminate|intros H0; discriminate H0].
 Qed.
 
 (* the configuration before and after one change: all their quorums pairwise intersect *)
@@ -132,7 +134,7 @@ Theorem conf_step_inter : forall c op c', wfc c -> apply_cc c op = Some c' ->
 Proof.
   intros c op c' [Hs Hne Ho] H.
   assert (Hnj : joint c = false -> c_out c = []) by (unfold joint; destruct (c_out c); [reflexivity|discriminate]).
-  destruct op as [x|x|a b|]; cbn [apply_cc] in H; destruct (joint c) eqn:Ej; try discriminate.
+  destruct op as [x|x|a b| |x]; cbn [apply_cc] in H; destruct (joint c) eqn:Ej; try discriminate.
   - (* add a voter *)
     injection H as <-. rewrite (Hnj eq_refl). cbn [c_in c_out].
     destruct (in_dec Nat.eq_dec x (c_in c)) as [Hin|Hnin].
@@ -165,6 +167,17 @@ Proof.
   - (* leave the joint configuration: the incoming half stays *)
     injection H as <-. cbn [c_in c_out].
     apply inter_family_pair; cbn [fst snd]; intros p q [Hp _] [Hq _]; apply (maj_self (c_in c) p q Hne Hp Hq).
+  - (* add a learner: a voter is demoted (removed from the voters), anyone else changes no quorum *)
+    destruct (del x (c_in c)) as [|z t] eqn:Ed; [discriminate|]. injection H as <-. rewrite (Hnj eq_refl). cbn [c_in c_out].
+    assert (Hne' : z :: t <> []) by discriminate. rewrite <- Ed in *.
+    destruct (in_dec Nat.eq_dec x (c_in c)) as [Hin|Hnin].
+    + pose proof (del_present x _ Hs Hin) as Hperm.
+      apply inter_family_pair; cbn [fst snd]; intros p q [Hp _] [Hq _].
+      * apply (maj_self (c_in c) p q Hne Hp Hq).
+      * apply (maj_self _ p q Hne' Hp Hq).
+      * destruct (maj_adjacent (del x (c_in c)) (c_in c) x q p Hperm Hne' Hq Hp) as (v & H1 & H2). exists v. split; assumption.
+    + rewrite (del_absent x _ Hnin).
+      apply inter_family_pair; cbn [fst snd]; intros p q [Hp _] [Hq _]; apply (maj_self (c_in c) p q Hne Hp Hq).
 Qed.
 
 (* every configuration a node can ever hold (the boot configuration changed by any log prefix)
